@@ -11,8 +11,9 @@ Verified against ASSUMED contracts of the callees (each proved or checked elsewh
 Ensures, for every data set, candidate set, batch size and max_candidates (int or ratio), with CI = the caller's candidates
 (unlabeled samples / the given indices / the row numbers) and NC = the drawn sub-sample:
   size       exactly one draw without replacement from CI of the documented size min(max_candidates or ceil(ratio*|CI|), |CI|)
-  inner      the wrapped strategy is queried exactly once; with exclude_non_subsample it sees X[S], y[S] for a strictly increasing S whose
-             entries are exactly the labeled samples and NC, and candidates c' with {S[c'[t]]} = NC; otherwise it sees X, y and c' = NC
+  inner      the wrapped strategy is queried exactly once; with exclude_non_subsample it sees X[S], y[S] for a strictly increasing S that
+             contains every labeled sample and NC but no other unlabeled candidate, and candidates c' with {S[c'[t]]} = NC; otherwise it
+             sees X, y and c' = NC
   selection  every returned index is a member of NC, expressed in the caller's index space
   utilities  column j of the result equals the wrapped strategy's column for j (re-translated through S resp. the drawn row numbers) if
              j is in NC, is -inf for the other members of CI and NaN outside CI
@@ -205,8 +206,11 @@ def unit_subsampling(mode, excl, mc_kind):
                     Sv = lambda pp_: to_int(S.sel(pp_))
                     E.oblige("C20.sub.reduced_set_strictly_increasing_in_range", st, z3.ForAll([t, u], z3.Implies(z3.And(0 <= t, t < u, u < ns),
                              z3.And(0 <= Sv(t), Sv(t) < Sv(u), Sv(u) < n))))
+                    # which unlabeled NON-candidates stay in the reduced set is not part of the property (the class documents 'unlabeled
+                    # candidates outside the sub-sample are excluded'); required: no candidate outside the sub-sample stays
                     pc_ = fresh("p", I)
-                    E.oblige("C20.sub.reduced_set_only_labeled_and_subsample", st.pc + [0 <= pc_, pc_ < ns], z3.Or(z3.Not(miss(Sv(pc_))), in_nc(Sv(pc_))))
+                    E.oblige("C20.sub.reduced_set_excludes_the_other_unlabeled_candidates", st.pc + [0 <= pc_, pc_ < ns],
+                             z3.Implies(z3.And(in_ci(Sv(pc_)), miss(Sv(pc_))), in_nc(Sv(pc_))))
                     jc = fresh("j", I)
                     E.oblige("C20.sub.reduced_set_has_every_labeled_and_subsampled_sample", st.pc + [0 <= jc, jc < n],
                              z3.Implies(z3.Or(z3.Not(miss(jc)), in_nc(jc)), z3.Exists([p], z3.And(0 <= p, p < ns, Sv(p) == jc))))
